@@ -249,6 +249,15 @@ def curated_templates():
     t['markers under 204'] = [OP(204007), element(31021, 'CODE TABLE'), E(), OP(224000), OP(236000), FIX(1, B1()), element(8023, 'CODE TABLE'), OP(224255), OP(204000)]
     t['203 definition under 204'] = [OP(204007), element(31021, 'CODE TABLE'), OP(203012), E(), OP(203255), E(), OP(204000)]
     t['class 33 marker'] = [Q(), OP(222000), FIX(1, B1()), Q(), OP(223000), OP(237000), OP(223255)]
+    # bitmaps written out as plain 031031 members, first and after a replicated one (whose loop body is compiled once)
+    t['spelled-out bitmap'] = [E(), E(10004), OP(223000), B1(), B1(), OP(223255)]
+    t['spelled-out bitmap after a replicated one'] = [E(), E(10004), OP(222000), BITS(), Q(), OP(224000), B1(), B1(), element(8023, 'CODE TABLE'), OP(224255)]
+    t['spelled-out bitmap after 236000'] = [E(), E(10004), OP(222000), OP(236000), B1(), B1(), Q(), OP(224000), OP(237000), element(8023, 'CODE TABLE'), OP(224255)]
+    t['spelled-out bitmap after a fixed one'] = [E(), E(10004), OP(222000), FIX(2, B1()), Q(), OP(223000), B1(), B1(), OP(223255)]
+    # delayed repetition: the count is 031011 / 031012
+    for fid in (31011, 31012, 31000, 31002):
+        t['delayed replication counted by %06d' % fid] = [E(), Obj('DelayedReplicationDescriptor', {
+            'id': 102000, 'members': [E(), E(8002, 'CODE TABLE')], 'factor': element(fid, unit='NUMERIC')}), E()]
     return t
 
 
@@ -672,6 +681,9 @@ def run(repo, check):
     check.run_rule(rule_r4, repo)
     check.run_rule(rule_r5, repo)
     check.run_rule(rule_r6, repo, check.tier)
+    from sa.rules import c14
+    from sa.rules.common import share
+    share(check, repo, c14.rule_r2, 'C08.R7', 'the flattened descriptor list that keys the compiled-template cache is the original list (shared with C14.R2)')
     check.assumptions = ['the differential compares abstract emission traces (primitive, descriptor, resolved width/scale/reference, links, bitmap '
                          'bookkeeping) over a finite family of templates: curated templates plus all ordered pairs (thorough: triples) of member symbols',
                          'equality of results on real data follows only together with C01/C02 (what each primitive does with its arguments)']
